@@ -4,7 +4,7 @@
    traversals, transactions, subscribe (either stream flavour, at any time), polls of any
    subscriber at any time, drops of subscribers and of the vector.  gh_replica is what a consumer
    builds from the subscription snapshot and everything delivered. *)
-From EB Require Import OVec OVecRun OVecFacts OVecExtra.
+From EB Require Import OVecStepwise OVecDrain OVecDrainFacts OVec OVecRun OVecFacts OVecExtra.
 
 (* whenever a subscriber's stream reports Pending, its replica equals the vector's contents *)
 Theorem C06_pending_implies_replica_eq_values :
@@ -87,3 +87,42 @@ Example C06_nonvacuous :
   was_lagged (g_o g) 0 = true /\
   exists g', gstep g (OPoll 0) = Ok (g', VPoll (Ready (Some (IDiff (Reset [1; 2; 3]))))).
 Proof. split; [reflexivity|]. eexists. vm_compute. reflexivity. Qed.
+
+(* ---- polls that race the sender (OVecDrain.v): lag detected in the middle of a drain ---- *)
+Theorem C06_racing_poll_is_the_poll_when_the_sender_is_quiet {A} (g : gst A) k :
+  ginv_strong g ->
+  c_gpoll g k [] = match gstep g (OPoll k) with
+                   | Ok (g', VPoll r) => Ok (g', r, 0)
+                   | _ => Panic
+                   end.
+Proof. exact (c_gpoll_quiet g k). Qed.
+Print Assumptions C06_racing_poll_is_the_poll_when_the_sender_is_quiet.
+
+Theorem C06_racing_poll_meaning {A} (g : gst A) k inj g' r u s gh' :
+  step_inv g -> forallb (env_ops k) inj = true ->
+  nth_error (subs (g_o g)) k = Some (Some s) ->
+  c_gpoll g k inj = Ok (g', r, u) -> nth_error (g_gh g') k = Some gh' ->
+  u <= length inj /\
+  match r with
+  | Pending => u = 0 /\ alive (g_o g') = true /\ gh_replica gh' = values (g_o g')
+  | Ready None => alive (g_o g') = false /\ gh_replica gh' = values (g_o g')
+  | Ready (Some it) =>
+      item_diffs it <> [] /\
+      (existsb is_reset (item_diffs it) = true ->
+         item_diffs it = [Reset (values (g_o g'))] /\
+         cap2 (g_o g) < length (log (g_o g')) - sb_next s) /\
+      (match it with IBatch _ => gh_replica gh' = values (g_o g') | IDiff _ => True end)
+  end.
+Proof. exact (c_poll_meaning g k inj g' r u s gh'). Qed.
+Print Assumptions C06_racing_poll_meaning.
+
+Theorem C06_racing_poll_never_panics {A} (g : gst A) k s inj :
+  step_inv g -> forallb (env_ops k) inj = true ->
+  nth_error (subs (g_o g)) k = Some (Some s) -> c_gpoll g k inj <> Panic.
+Proof. exact (c_gpoll_never_panics g k s inj). Qed.
+Print Assumptions C06_racing_poll_never_panics.
+
+Theorem C06_racing_histories_keep_the_invariant {A} capacity (cs : list (cop A)) :
+  step_inv (c_run (ginit capacity) cs).
+Proof. exact (c_reachable capacity cs). Qed.
+Print Assumptions C06_racing_histories_keep_the_invariant.
